@@ -168,6 +168,7 @@ package documentstore
 //@   loop 1 invariant toAdd != nil
 //@   loop 1 invariant forall k Str :: (k in toAdd) <==> (exists j Int :: 0 <= j && j < $i && keyOf(V[j]) == k)
 //@   loop 1 invariant forall k Str :: (k in toAdd) ==> (exists w Int :: 0 <= w && w < $i && keyOf(V[w]) == k && toAdd[k] == encDoc(V[w]) && (forall j Int :: w < j && j < $i ==> keyOf(V[j]) != k))
+//@   assert @ after call o.AddOperation#1: $r1 == nil ==> (forall k Str :: (k in toAdd) ==> (exists d Int :: 0 <= d && d < opNDocs($r0) && opDocKey($r0, d) == k && opDocVal($r0, d) == toAdd[k]))
 //@   ensures result1 == nil ==> typeis(result, "*operation.operation") && ref(result) != 0
 //@   ensures result1 == nil ==> logLen(L) == old(logLen(L)) + 1 && ents(L)[ptr(result, "operation.operation").Entry] && !old(ents(L))[ptr(result, "operation.operation").Entry]
 //@   ensures result1 == nil ==> opKind(ptr(result, "operation.operation").Entry) == "PUTALL"
